@@ -317,7 +317,9 @@ def spelling_families():
     return [("x>=-7", "GreaterOrEqual", [("-(x+3)<=4", neg(bop("Add", x, num(3))), "LessOrEqual", 4.0), ("-x-3<=4", bop("Sub", neg(x), num(3)), "LessOrEqual", 4.0), ("-1*(x+3)<=4", bop("Mul", num(-1), bop("Add", x, num(3))), "LessOrEqual", 4.0),
                                           ("0-(x+3)<=4", bop("Sub", num(0), bop("Add", x, num(3))), "LessOrEqual", 4.0), ("x+3>=-4", bop("Add", x, num(3)), "GreaterOrEqual", -4.0), ("(x+3)/-1<=4", bop("Div", bop("Add", x, num(3)), num(-1)), "LessOrEqual", 4.0)]),
             ("2x<=6", "LessOrEqual", [("2*x<=6", bop("Mul", num(2), x), "LessOrEqual", 6.0), ("x*2<=6", bop("Mul", x, num(2)), "LessOrEqual", 6.0), ("x+x<=6", bop("Add", x, x), "LessOrEqual", 6.0), ("x/0.5<=6", bop("Div", x, num(0.5)), "LessOrEqual", 6.0),
-                                      ("-(-2*x)<=6", neg(bop("Mul", num(-2), x)), "LessOrEqual", 6.0), ("2*(x+1)<=8", bop("Mul", num(2), bop("Add", x, num(1))), "LessOrEqual", 8.0)])]
+                                      ("-(-2*x)<=6", neg(bop("Mul", num(-2), x)), "LessOrEqual", 6.0), ("2*(x+1)<=8", bop("Mul", num(2), bop("Add", x, num(1))), "LessOrEqual", 8.0)]),
+            ("|x|<=3", "LessOrEqual", [("abs(x)<=3", ab(x), "LessOrEqual", 3.0), ("abs(x)/2<=1.5", bop("Div", ab(x), num(2)), "LessOrEqual", 1.5), ("0.5*abs(x)<=1.5", bop("Mul", num(0.5), ab(x)), "LessOrEqual", 1.5),
+                                     ("abs(x)*2<=6", bop("Mul", ab(x), num(2)), "LessOrEqual", 6.0), ("abs(x)/-2>=-1.5", bop("Div", ab(x), num(-2)), "GreaterOrEqual", -1.5), ("max(x,-x)<=3", mx(x, neg(x)), "LessOrEqual", 3.0)])]
 
 
 def run(F, tier="quick"):
